@@ -549,12 +549,10 @@ def _by_label(res):
 
 
 def _first_divergence(a, b):
-    for k in sorted(set(a) | set(b)):
-        if k.endswith(".rsp") or k in ("build.ninja",):
-            continue
-        if a.get(k) != b.get(k):
-            return k
-    return None
+    """the most upstream file that differs: intermediates in sub-directories first, then top-level ones, fonts last"""
+    diff = [k for k in sorted(set(a) | set(b)) if not (k.endswith(".rsp") or k == "build.ninja") and a.get(k) != b.get(k)]
+    rank = lambda k: (0 if "/" in k else (2 if k.rsplit(".", 1)[-1] in ("ttf", "otf") else 1), k)
+    return min(diff, key=rank) if diff else None
 
 
 def judge(case, results):
